@@ -74,9 +74,10 @@ def real_text(rng, mant, exp, neg):
 class Gen:
     def __init__(self, rng, tier):
         self.rng, self.tier = rng, tier
+        self.cmd_used = set()
         self.stats = {"tables": 0, "opts": 0, "types": [0] * 5, "cmdline": 0, "spoof": 0, "env": 0, "cfg": 0,
                       "words": 0, "abbrev": 0, "cluster": 0, "eqform": 0, "unknown": 0, "malformed": 0,
-                      "badvalue": 0, "dashdash": 0, "plus_words": 0, "cfg_missing_arg": 0}
+                      "badvalue": 0, "dashdash": 0, "plus_words": 0, "cfg_missing_arg": 0, "reuse": 0}
 
     # ---------------------------------------------------------------- table
     def table(self, case_id):
@@ -294,7 +295,7 @@ class Gen:
         rng = self.rng
         ty = o["type"]
         r = rng.random()
-        bad = r < (0.16 if self.rng.random() < 0.5 else 0.05)
+        bad = r < (0.10 if self.rng.random() < 0.5 else 0.03)
         if ty == INT:
             if bad:
                 self.stats["badvalue"] += 1
@@ -336,7 +337,7 @@ class Gen:
         # strings
         c = ["file1", "out.txt", "x", "a=b", "www.example.org", "7", "hi!", "+plus", "v" * rng.choice([1, 3, 20, 126, 127, 128, 129, 300])]
         if where == "cmd":
-            c += ["-dash", "--dd", "-", "two words", ""]
+            c += ["-", "two words", ""] + (["-dash", "--dd"] if rng.random() < 0.4 else [])
         if where == "env":
             c += ["-dash", "two words", ""]
         if where == "cfg":
@@ -349,19 +350,25 @@ class Gen:
         st = self.stats
         words = []
         nitems = rng.choice([0, 1, 1, 2, 2, 3, 3, 4, 5, 6])
+        if rng.random() < 0.8:
+            nitems = min(nitems, len(t.opts))
         shorts = [o for o in t.opts if len(o["name"]) == 2]
         longs = [o for o in t.opts if o["name"].startswith("--")]
         flags_s = [o for o in shorts if o["type"] == NONE]
         used = set()
         for _ in range(nitems):
             r = rng.random()
-            fresh = [o for o in t.opts if o["name"] not in used] or t.opts
-            o = rng.choice(fresh if rng.random() < 0.85 else t.opts)
+            fresh = [o for o in t.opts if o["name"] not in used and o["name"] not in self.cmd_used]
+            if not fresh:
+                if rng.random() < 0.85:
+                    break                          # every option is taken: setting one again is an "already set" error
+                fresh = t.opts
+            o = rng.choice(fresh if rng.random() < 0.93 else t.opts)
             used.add(o["name"])
-            if r < 0.06:
+            if r < 0.03:
                 st["unknown"] += 1
                 words.append(rng.choice(["--zzz", "-Z", "--nonesuch=3", "-?", "--fooo", "--" + o["name"].lstrip("-") + "q"]))
-            elif r < 0.13:
+            elif r < 0.07:
                 st["malformed"] += 1
                 a = flags_s[0]["name"] if flags_s else "-a"
                 words.append(rng.choice([a + "-", a + "-" + a[1], "--=5", "---", "-=", "--=", a + "=1", "--" + "=x", a + a[1],
@@ -370,7 +377,16 @@ class Gen:
                 nm = o["name"]
                 if rng.random() < 0.4 and len(nm) > 3:
                     st["abbrev"] += 1
-                    nm = nm[:rng.randrange(3, len(nm))] if rng.random() < 0.9 else nm[:2]
+                    # shortest prefix that no other option name shares (or the full name when it is itself a prefix of another)
+                    others = [x["name"] for x in t.opts if x["name"] != nm]
+                    uniq = next((k for k in range(3, len(nm) + 1) if not any(x.startswith(nm[:k]) for x in others)), len(nm))
+                    q = rng.random()
+                    if q < 0.75:
+                        nm = nm[:rng.randrange(uniq, len(nm) + 1)]          # unambiguous
+                    elif q < 0.95:
+                        nm = nm[:rng.randrange(3, len(nm))]                 # possibly ambiguous
+                    else:
+                        nm = nm[:2]
                 if o["type"] == NONE:
                     if rng.random() < 0.05:
                         st["malformed"] += 1
@@ -393,7 +409,7 @@ class Gen:
                 if flags_s and rng.random() < 0.4:
                     st["cluster"] += 1
                     k = rng.choice([1, 1, 2, 3])
-                    cand = [f for f in flags_s if f["name"] not in used] or flags_s
+                    cand = [f for f in flags_s if f["name"] not in used and f["name"] not in self.cmd_used] or (flags_s if rng.random() < 0.15 else [])
                     for f in rng.sample(cand, min(k, len(cand))):
                         if f is not o:
                             cl += f["name"][1]
@@ -427,6 +443,7 @@ class Gen:
         if r >= 0.3 and args and rng.random() < 0.3 and t.opts:
             words.append(rng.choice(t.opts)["name"])      # an option after the first argument is an argument
         words = words[:12]
+        self.cmd_used |= used
         st["words"] += len(words)
         return ["prog"] + words
 
@@ -474,29 +491,31 @@ class Gen:
         nl = rng.choice([0, 1, 1, 2, 3, 4, 6])
         pool = list(t.opts)
         rng.shuffle(pool)
+        if rng.random() < 0.8:
+            nl = min(nl, len(pool) + 1)
         for k in range(nl):
             r = rng.random()
             if r < 0.12:
                 lines.append(rng.choice(["# a comment", "", "   ", "#", "\t# indented comment", "#" + "x" * rng.choice([10, 126, 127, 128, 129, 300])]))
                 continue
-            if r < 0.17:
+            if r < 0.145:
                 lines.append(rng.choice(["--zzz", "-Z 3", "notanoption", "foo bar", "--nonesuch arg", "=x"]))
                 self.stats["unknown"] += 1
                 continue
             o = pool[k % len(pool)] if rng.random() < 0.9 else rng.choice(t.opts)
             nm = o["name"]
-            if nm.startswith("--") and len(nm) > 3 and rng.random() < 0.04:
+            if nm.startswith("--") and len(nm) > 3 and rng.random() < 0.02:
                 nm = nm[:-1]                                   # abbreviations are not allowed in config files
             ind = rng.choice(["", "", "", " ", "\t"])
             if o["type"] == NONE:
                 q = rng.random()
                 line = ind + nm + (rng.choice(["  # comment", " #c", "\t"]) if q < 0.2 else "")
-                if q > 0.95:
+                if q > 0.97:
                     line = ind + nm + rng.choice([" extra stuff", " ;c", " 1", " on #c", " //"])   # argument to a flag / trailing garbage
             else:
                 v = self.value(o, "cfg")
                 q = rng.random()
-                if q < 0.04:
+                if q < 0.025:
                     line = ind + nm                            # missing argument (usage error since fix 8d4fde4)
                     self.stats["cfg_missing_arg"] += 1
                 elif " " in v:
@@ -505,7 +524,7 @@ class Gen:
                     line = ind + nm + " val"
                 else:
                     sep = rng.choice([" ", " ", "  ", "\t", " \t "])
-                    line = ind + nm + sep + v + rng.choice(["", "", " # comment", " trailing", " ;c", " //c", " -x", " =", "\t#", " #"] if q < 0.3 else [""])
+                    line = ind + nm + sep + v + rng.choice(["", "", "", " # comment", " # comment", "\t#", " #", " trailing", " ;c", " //c", " -x", " ="] if q < 0.15 else [""])
             lines.append(line)
         txt = "\n".join(lines)
         if lines and rng.random() < 0.85:
@@ -516,14 +535,22 @@ class Gen:
     def case(self, cid):
         rng = self.rng
         t = self.table(cid)
+        self.cmd_used = set()                      # options already set on an earlier command line of this case
         ops = t.lines() + ["create"]
         sticky = len(ops)
         nsrc = rng.choice([1, 1, 2, 2, 3, 3, 4, 5])
         kinds = []
         spoofed = False
+        ncmd = nenv = 0
         for _ in range(nsrc):
             r = rng.random()
+            # a second command line / environment pass mostly collides with the first ("already set"): keep it rare
+            if r < 0.45 and ncmd and rng.random() < 0.8:
+                r = 0.75
+            if 0.45 <= r < 0.7 and nenv and rng.random() < 0.8:
+                r = 0.75
             if r < 0.45:
+                ncmd += 1
                 if rng.random() < 0.2 and not spoofed:
                     spoofed = True
                     kinds.append("spoof")
@@ -534,6 +561,7 @@ class Gen:
                     ops.append("cmdline w=" + ",".join(hx(w) for w in self.argv(t)))
                     self.stats["cmdline"] += 1
             elif r < 0.7:
+                nenv += 1
                 kinds.append("env")
                 ops.append(self.env(t))
                 self.stats["env"] += 1
@@ -543,6 +571,12 @@ class Gen:
                 self.stats["cfg"] += 1
             if rng.random() < 0.4:
                 ops.append("dump")
+            if rng.random() < 0.05:
+                ops += ["reuse", "dump"]           # back to defaults; a new spoofed command line is allowed again
+                spoofed = False
+                self.cmd_used = set()
+                ncmd = nenv = 0
+                self.stats["reuse"] += 1
         ops += ["verify", "dump"]
         return {"name": "gen%d" % cid, "ops": ops, "sticky": sticky}
 
@@ -572,7 +606,7 @@ class C14(Prop):
     harness = "h_getopts.c"
     theorems = ["EaselModel.Props.C14." + t for t in (
         "sources_are_setting_sequences_env", "sources_are_setting_sequences_cfg", "sources_are_setting_sequences_cmdline",
-        "successful_run_is_history", "successful_cfgfile_is_history", "successful_cmdline_is_history", "last_setter_wins", "untouched_keeps_state", "fresh_object_all_default",
+        "successful_run_is_history", "successful_cfgfile_is_history", "successful_cmdline_is_history", "last_setter_wins", "untouched_keeps_state", "fresh_object_all_default", "reuse_restores_defaults",
         "same_source_twice_is_usage_error", "set_after_toggle_by_same_source_is_usage_error",
         "set_option_spec", "toggle_switches_others_off", "optlist_element_denotes_named_option", "optlist_reads_back_names",
         "abbrev_full_name_resolves", "abbrev_resolves_iff_unique", "abbrev_ambiguous_iff_two", "abbrev_unknown_iff",
@@ -604,16 +638,17 @@ class C14(Prop):
         "bytes are ASCII (isspace/char comparison on bytes >= 0x80 not modelled)",
         "in a config file an argument after a boolean option is ignored by the code (documented format: 'an option and an argument (if the option takes an argument)'); modelled as is",
         "esl_opt_ProcessSpoof called twice on one object (API misuse: the error path frees the first spoof's argv that g->val/argv still point into) is not generated",
-        "memory leaks are not part of C14: the harness carries a LeakSanitizer suppression for esl_opt_ProcessConfigfile, whose line buffer is not freed on its usage-error returns (fix proposed: /var/tmp/fixes-proposed/C14-cfgfile-linebuf-leak.patch); every other leak is still reported as a fault",
-        "allocation failure paths, esl_opt_DisplayHelp, esl_getopts_Dump, CreateOptsLine, SpoofCmdline, CreateDefaultApp, Reuse are not modelled",
+        "memory leaks are not part of C14's statement; LeakSanitizer stays on in the harness run (support only): a leak in esl_getopts.c would be reported as a fault",
+        "allocation failure paths, esl_opt_DisplayHelp, esl_getopts_Dump, CreateOptsLine, SpoofCmdline, CreateDefaultApp are not modelled",
     ]
-    rule = ("case = random well-formed option table (1-12 options) + 1-5 sources (cmdline/spoof/env/config file) in random order + VerifyConfig + full dump; "
+    rule = ("case = random well-formed option table (1-12 options) + 1-5 sources (cmdline/spoof/env/config file, occasionally Reuse in between) in random order, dumps of every query call in between, + VerifyConfig + full dump; "
             "non-trivial = at least one source returned ok and the final dump shows an option not at its default setter; distinct by output trace")
     quick_cases = 12000
     thorough_cases = 120000
 
     def __init__(self):
         self._stats = {}
+        self._out_stats = {}
 
     # ------------------------------------------------------------------ corpus
     def corpus(self, ctx):
@@ -638,6 +673,8 @@ class C14(Prop):
                                           W("prog", "-b", "--no-b"), "dump"], "sticky": n},
             {"name": "spoof", "ops": T + ["create", "spoof s=" + hx('getopts -a -b -c y --d1 -n 9 --host "wasp x" --multi "one two three" --mul a1 a2'),
                                           "verify", "dump"], "sticky": n},
+            {"name": "reuse", "ops": T + ["create", "spoof s=" + hx("prog -a -n 5 x y"), "cfg s=" + hx("--host h.example.org\n"), "dump", "reuse", "dump",
+                                          "spoof s=" + hx("prog -b z"), "cfg s=" + hx("-n 4\n"), "verify", "dump"], "sticky": n},
             {"name": "spoof-empty", "ops": T + ["create", "spoof s=-", "dump"], "sticky": n},
             {"name": "cfg-errors", "ops": T + ["create", "cfg s=" + hx("-b\n-b\n"), "dump", "cfg s=" + hx("--mu\n"), "cfg s=" + hx("junk\n"),
                                                "cfg s=" + hx("-n 3 4\n"), "cfg s=" + hx("-n 3 # ok\n-x 2\n"), "dump", "cfg s=" + hx("-a arg\n"), "dump"], "sticky": n},
@@ -694,10 +731,15 @@ class C14(Prop):
         cmd_failed = False
         for op, l in zip(case["ops"], out):
             w = op.split()[0]
+            if w not in ("opt", "dump"):
+                k = "%s:%s" % (w, l.split()[0] if l else "?")
+                self._out_stats[k] = self._out_stats.get(k, 0) + 1
             if w in ("cmdline", "spoof"):
                 cmd_failed = not l.startswith("ok")
             if l.startswith(("fault", "atexit")):
                 continue                      # reported by the engine as a fault
+            if w == "reuse" and l != "ok":
+                return Failure("monitor", "Reuse returned %r" % l)
             if w in ("cmdline", "spoof", "env", "cfg", "verify"):
                 p = l.split()
                 if p[0] not in ("ok", "esyntax"):
@@ -772,7 +814,7 @@ class C14(Prop):
         return bool(oksrc and m and any(f.split("/")[1] != "0" for f in m.group(1).split(";") if f.count("/") == 3))
 
     def extra_evidence(self, ctx):
-        return {"input_distribution": self._stats}
+        return {"input_distribution": self._stats, "implementation_outcomes": dict(sorted(self._out_stats.items()))}
 
 
 SPEC = C14()
